@@ -25,8 +25,14 @@ type C07Case struct {
 	Follow      string       `json:"follow"`
 	FollowEvent int32        `json:"follow_event"`
 	Plugins     []PluginSpec `json:"plugins"` // in registration order; invoked in Idx order
-	HookPoint   string       `json:"hook_point,omitempty"`
-	HookSleepUs int          `json:"hook_sleep_us,omitempty"`
+	// the caller's context of the request and of the follow-up: "" (context.Background()),
+	// deadline (CtxDeadlineS seconds away, 30..60), values, cancel (never cancelled during the
+	// call), values+deadline, cancel+deadline
+	Ctx          string `json:"ctx,omitempty"`
+	FollowCtx    string `json:"follow_ctx,omitempty"`
+	CtxDeadlineS int    `json:"ctx_deadline_s,omitempty"`
+	HookPoint    string `json:"hook_point,omitempty"`
+	HookSleepUs  int    `json:"hook_sleep_us,omitempty"`
 }
 
 // PluginSpec describes one plugin of a case.
@@ -197,6 +203,10 @@ func genC07(t *rapid.T) C07Case {
 	var c C07Case
 	c.Req, c.Event = reqGen(t, "req")
 	c.Follow, c.FollowEvent = reqGen(t, "follow")
+	ctxKinds := []string{"deadline", "", "values", "cancel", "values+deadline", "", "cancel+deadline", "deadline"}
+	c.Ctx = rapid.SampledFrom(ctxKinds).Draw(t, "ctx")
+	c.FollowCtx = rapid.SampledFrom(ctxKinds).Draw(t, "follow-ctx")
+	c.CtxDeadlineS = rapid.IntRange(30, 60).Draw(t, "ctx-deadline")
 	n := rapid.SampledFrom([]int{2, 3, 3, 4, 4, 5}).Draw(t, "plugins")
 	idx := rapid.SliceOfNDistinct(rapid.IntRange(0, 99), n, n, rapid.ID[int]).Draw(t, "indices")
 	nf := rapid.SampledFrom([]int{1, 1, 2, 1, 1, 2, 1, 2, 3, 1, 2, 0}).Draw(t, "nfaults")
